@@ -9,6 +9,7 @@ import NormModel.Properties.C03
 import NormModel.Properties.C04
 import NormModel.Properties.C11
 import NormModel.Properties.C13
+import NormModel.Proofs.Spacing
 namespace Norm.C01
 open Norm Spec
 
@@ -83,6 +84,45 @@ theorem token_col_le (pre line : List Char) (hpre : pre = [] ∨ pre.getLast? = 
   have := col_mono line hnl k (1, 1)
   unfold C03.lineWidth at hw
   omega
+
+/-! ### The always-run checks are silent on conforming token lists, for every rule table -/
+
+/-- **`CheckSpacing` invents nothing**: if no SPACE token of the file is at column 1, next to
+another blank or before a NEWLINE, and no TAB is directly before a NEWLINE (which is what "tab
+indentation, single spaces, no trailing blanks" means for the token list), then `CheckSpacing`
+adds no diagnostic anywhere in the file — whatever the primaries match. -/
+theorem spacing_silent (toks : List Token) (trace : List Segment) (hc : WsClean toks) :
+    spacingDiagsRun toks trace = [] := spacingDiagsRun_clean toks trace hc
+
+/-- **`CheckTernary` and `CheckLineLen` invent nothing**: a file without `?` tokens whose tokens
+all start at or before column 81 gets nothing from them. -/
+theorem always_silent (toks : List Token) (trace : List Segment)
+    (hq : ∀ tk ∈ toks, tk.type ≠ "TERN_CONDITION") (hcol : ∀ tk ∈ toks, tk.col ≤ 81) :
+    alwaysDiagsRun toks trace = [] := by
+  unfold alwaysDiagsRun
+  rw [List.flatMap_eq_nil_iff]
+  intro g _
+  unfold alwaysDiags
+  have h1 : ternaryToks (segToks toks g) = [] := by
+    unfold ternaryToks
+    rw [List.filter_eq_nil_iff]
+    intro tk htk
+    have := hq tk (segToks_sub toks g tk htk)
+    simpa using this
+  have h2 : lineLenToks (segToks toks g) [] = [] := by
+    cases hl : lineLenToks (segToks toks g) [] with
+    | nil => rfl
+    | cons a l =>
+      have hm : a ∈ lineLenToks (segToks toks g) [] := by rw [hl]; simp
+      obtain ⟨hs, hc81, _⟩ := lineLenToks_sound _ _ _ hm
+      have := hcol a (segToks_sub toks g a hs)
+      omega
+  rw [h1, h2]; rfl
+
+/-- Non-vacuity: the token list of `\tx = a + 1;\n` is cleanly spaced. -/
+example : spacingDiagsRun [⟨"TAB", 1, 1, none, 0, 1⟩, ⟨"IDENTIFIER", 1, 5, some "x", 1, 2⟩, ⟨"SPACE", 1, 6, none, 2, 3⟩,
+    ⟨"ASSIGN", 1, 7, none, 3, 4⟩, ⟨"SPACE", 1, 8, none, 4, 5⟩, ⟨"IDENTIFIER", 1, 9, some "a", 5, 6⟩, ⟨"SEMI_COLON", 1, 10, none, 6, 7⟩,
+    ⟨"NEWLINE", 1, 11, none, 7, 8⟩] [⟨"IsAssignation", 0, 8⟩] = [] := by decide +kernel
 
 /- the header of a conforming file is `C13.accept`, its integer constants are `C11.int_valid`
 (imported above, re-checked with this file) -/
